@@ -57,6 +57,13 @@ def order_pool():
     P["str_sur2"] = X.set_([X.tup([("@", N(0)), ("@char", N(55297))])])
     P["str_fffd"] = X.set_([X.tup([("@", N(0)), ("@char", N(65533))])])
     P["str_sur_h"] = X.set_([X.tup([("@", N(0)), ("@char", N(55296))]), X.tup([("@", N(2)), ("@char", N(97))])])
+    # dicts with several values under a key: value lists that are prefixes of one another, later keys deciding the other way
+    dd = lambda *kv: X.dict_([(N(k), N(v)) for k, v in kv])
+    P["dm_12_13"] = X.binop("|", dd((1, 2)), dd((1, 3)))
+    P["dm_12_20"] = dd((1, 2), (2, 0))
+    P["dm_x"] = X.binop("|", X.binop("|", dd((1, 2)), dd((1, 4))), dd((2, 0)))
+    P["dm_y"] = dd((1, 2), (2, 1))
+    P["dm_z"] = X.binop("|", X.binop("|", dd((1, 2)), dd((1, 3))), dd((2, 2)))
     P["tt"] = X.tup([("a", X.tup([("b", N(1))]))])
     P["tset"] = X.tup([("a", X.set_([N(1)]))])
     return P
@@ -95,7 +102,7 @@ def main(tier, seed, replay=None):
             pick.update(rng.sample(lst, min(len(lst), 2)))
         # near-miss pairs are always in: they differ in exactly one respect (hole vs {}, key vs value order, offset only, ...)
         pick.update(n for n in ("ar_hole", "ar_empty_mid", "ar_empty_mid2", "ar_hole2", "ar_123", "te_19", "te_23", "te_13", "ti_19", "ti_23",
-                                "tc_1", "tc_2", "tb_1", "tb_2", "d19_23", "d12", "rj_ba", "r_ab", "rj_4", "r_4lit", "r_4nb", "rj_3c", "r_3clit", "str_sur1", "str_sur2", "str_fffd", "str_sur_h", "str_off", "str_a", "by_off", "by_12",
+                                "tc_1", "tc_2", "tb_1", "tb_2", "d19_23", "d12", "rj_ba", "r_ab", "rj_4", "r_4lit", "r_4nb", "rj_3c", "r_3clit", "str_sur1", "str_sur2", "str_fffd", "str_sur_h", "dm_12_13", "dm_12_20", "dm_x", "dm_y", "dm_z", "str_off", "str_a", "by_off", "by_12",
                                 "empty", "true", "t0", "neg_set", "neg_tup") if n in P)
         rest = [n for n in names if n not in pick]
         pick.update(rng.sample(rest, min(len(rest), 6)))
